@@ -615,6 +615,8 @@ def spec_c11(tier, seed):
                 parts.append({'role': role, 'own': ['rr', 'ch'], 'inb': ['rr', 'rs'], 'mode': mode, 'raising': False, 'frag_tail': False, 'on_close': oc})
     return dict(
         conds=[Cond('c11_connection_loss', 'c_cut', parts=parts, timeout=600),
+               Cond('c11_connection_loss', 'c_loss_library_sources',
+                    parts=[{'src': x} for x in (('gen', 'agen', 'rx4bp') if tier == 'quick' else ('gen', 'agen', 'rx4', 'rx4bp', 'rx3', 'rx3bp'))], timeout=300),
                Cond('c11_connection_loss', 'w_cut_inside_fragmented_frame', timeout=120)],
         explanation='a real endpoint (server / client) on the REAL TransportTCP over a real asyncio.StreamReader, with own pending '
                     'interactions (request-response future, stream subscription, channel with publisher) and peer-opened ones '
@@ -623,7 +625,9 @@ def spec_c11(tier, seed):
                     'error / application close() / failing write; after a symbolic settle time plus 3 s of virtual time: every '
                     'interaction pending at the cut failed exactly once with a connection error, publishers and handler futures '
                     'cancelled, on_close exactly once, nothing written afterwards (keep-alives included), tasks finished, no '
-                    'stream left',
+                    'stream left.  c_loss_library_sources: a responder over the library\'s own stream sources (generator, async '
+                    'generator, reactivex / Rx) loses the connection in the same read as the request, one loop iteration later, '
+                    'or after two elements: the source is not pulled after the close notification.',
         bounds=['cut offset: every byte position of a ~200-byte inbound stream (symbolic)', '4 failure modes; %d (role, pending mix, mode) partitions' % len(parts),
                 '<= 3 own + <= 3 peer-opened pending interactions; settle time 0..5 s symbolic'],
         outside=['more pending interactions, longer inbound streams, failures of the StreamWriter other than write()/drain() raising'],
@@ -631,7 +635,9 @@ def spec_c11(tier, seed):
                    'rsocket.rsocket_base.RSocketBase._stop_tasks', 'rsocket.rsocket_base.RSocketBase._sender', 'rsocket.rsocket_base.RSocketBase.close',
                    'rsocket.stream_control.StreamControl.stop_all_streams', 'rsocket.rsocket_client.RSocketClient._close', 'rsocket.rsocket_client.RSocketClient._stop_tasks',
                    'rsocket.rsocket_client.RSocketClient._reconnect_listener', 'rsocket.helpers.wrap_transport_exception', 'rsocket.helpers.cancel_if_task_exists',
-                   'rsocket.transports.tcp.TransportTCP.next_frame_generator', 'rsocket.transports.tcp.TransportTCP.serialize_partial', 'rsocket.frame_parser.FrameParser.receive_data'],
+                   'rsocket.transports.tcp.TransportTCP.next_frame_generator', 'rsocket.transports.tcp.TransportTCP.serialize_partial', 'rsocket.frame_parser.FrameParser.receive_data',
+                   'rsocket.streams.stream_from_generator.StreamFromGenerator.cancel', 'rsocket.streams.stream_from_generator.StreamFromGenerator.feed_subscriber',
+                   'rsocket.handlers.request_stream_responder.RequestStreamResponder.dispose'],
         stubs=['S1', 'S2', 'S3', 'S4', 'S6', 'real TransportTCP + real StreamReader, recording StreamWriter stand-in', 'S8'],
     )
 
